@@ -1952,7 +1952,12 @@ func genC14(g *G, sc *Scenario, tier string, seed uint64) {
 			}
 			// titles have to be unique among the jobs; re-posting a job under another title frees its old one
 			title := hg.Pick([]string{id, id, "title-a", "title-b"})
-			cfg := map[string]any{"id": id, "title": title, "source": map[string]any{"Type": "DatasetSource", "Name": hg.Pick(c.Datasets)}, "sink": map[string]any{"Type": "DatasetSink", "Name": "out"},
+			src := map[string]any{"Type": "DatasetSource", "Name": hg.Pick(c.Datasets)}
+			if hg.P(0.3) {
+				// a union of datasets, its members written the short way
+				src = map[string]any{"Type": "UnionDatasetSource", "DatasetSources": []any{map[string]any{"Name": "dsA"}, map[string]any{"Name": "dsB"}}}
+			}
+			cfg := map[string]any{"id": id, "title": title, "source": src, "sink": map[string]any{"Type": "DatasetSink", "Name": "out"},
 				"paused": hg.P(0.5), "batchSize": hg.Range(1, 5), "triggers": []any{trig}}
 			ops = append(ops, Op{K: "addJob", M: cfg})
 		case x < 0.58:
